@@ -474,4 +474,31 @@ example : (ZeroSwap.quantisSwapZero QEx.e0 QEx.e1 QEx.old0 QEx.old1 QEx.scA QEx.
     simp only [Except.toOption, Option.map_some, Option.some.injEq, Prod.mk.injEq] at h ⊢
     exact ⟨h.2.1, h.2.2.1⟩
 
+/-! ### call history: what a settings dict left with `allowmaxlength = True` does to a later shoot -/
+
+/-- **With `allowmaxlength` set (or a loaded path) the drawn number plays no role.** The limit is `maxlength`, no
+    `random()` is requested, and the whole result is independent of ξ.  `wire_fencing` leaves
+    `tis_set["allowmaxlength"] = True` behind on the dict it was given (recorded observation), so a later shooting
+    move on the same dict falls under this theorem instead of `shoot_threshold`. -/
+theorem shoot_allowmax_ignores_xi (v : Variant) (i : ShootIn) (q : Rat) (h : i.allowMax = true ∨ i.genLd = true) :
+    drawMaxlen i = .ok (i.maxlength, []) ∧ shoot v { i with xi := q } = shoot v i := by
+  have hd : ∀ x : Rat, drawMaxlen { i with xi := x } = .ok (i.maxlength, []) := by
+    intro x
+    unfold drawMaxlen
+    rcases h with h | h <;> simp [h]
+  refine ⟨by simpa using hd i.xi, ?_⟩
+  have h1 := hd q
+  have h2 : drawMaxlen i = .ok (i.maxlength, []) := by simpa using hd i.xi
+  have hf : ∀ t, finalChecks { i with xi := q } t = finalChecks i t := fun _ => rfl
+  unfold shoot
+  simp only [h1, h2, hf]
+
+example : (shoot .repaired { exIn with allowMax := true, xi := 0 }).toOption.map (fun o => (o.status, o.draws))
+    = some (.ACC, [.integers 1 3]) := by
+  have h := (shoot_allowmax_ignores_xi .repaired { exIn with allowMax := true } 0 (Or.inl rfl)).2
+  have e : ({ ({ exIn with allowMax := true } : ShootIn) with xi := 0 } : ShootIn) = { exIn with allowMax := true, xi := 0 } := rfl
+  rw [e] at h
+  rw [h]
+  exact exIn_allowmax_eval
+
 end Infretis.C09
